@@ -78,4 +78,5 @@ func checkC17(c *lib.Ctx) {
 	r.Exhaustive = true
 	checkC17Files(c)
 	checkC17Listings(c)
+	checkC17Boundaries(c)
 }
